@@ -332,7 +332,7 @@ func genC29(t *rapid.T) c29Case {
 			if mask&(1<<i) == 0 {
 				continue
 			}
-			valid := rapid.IntRange(0, 9).Draw(t, "valid") < 8
+			valid := rapid.IntRange(0, 9).Draw(t, "valid") < 9
 			n := rapid.IntRange(1, 3).Draw(t, "n")
 			// idx: distinct per source so the oracle can tell who won
 			val := c29MakeVal(s, i+1, n, valid)
@@ -367,7 +367,13 @@ func genC29(t *rapid.T) c29Case {
 		}
 		return g
 	})
+	usedSetting := map[string]bool{}
 	for _, g := range rapid.SliceOfN(settingGen, 1, 4).Draw(t, "settings") {
+		// one group per setting: a second group for the same setting would reuse its variable names
+		if len(g.As) == 0 || usedSetting[g.As[0].Setting] {
+			continue
+		}
+		usedSetting[g.As[0].Setting] = true
 		c.Assigns = append(c.Assigns, g.As...)
 		for k, v := range g.Vars {
 			c.Vars[k] = v
@@ -874,7 +880,11 @@ func execC29(c c29Case) vkit.Result {
 				culprit = p
 				if e := sub.Expect[p]; e != nil && len(e.Acceptable) > 0 {
 					culprit += "/via=" + strings.TrimRight(e.Acceptable[0].Src, "12")
-					if e.HasRef {
+					anyRef := e.HasRef
+					for _, a := range c29RelevantTo(byPath[p], c.Assigns) {
+						anyRef = anyRef || c29HasRef(a.Val)
+					}
+					if anyRef {
 						culprit += "+ref"
 					}
 				}
@@ -955,8 +965,8 @@ func c29Partial(got, want string) bool {
 func TestC29(t *testing.T) {
 	vkit.Run(t, vkit.Spec[c29Case]{
 		ID: "C29",
-		Rule: "rapid-generated configurations: 1-4 settings per case drawn from every main-config setting that has a cmdenv tag (17) or a string/list/map type (28 more), each given through a generated non-empty subset of its sources " +
-			"{--flag, env var (struct-tag name or the name the metadata documents), shared fallback flag/env (HoneycombAPIKey), file1, file2} with a distinct value per source (valid for the setting's documented type, ~20% deliberately invalid); " +
+		Rule: "rapid-generated configurations: 1-4 settings per case drawn from every observable main-config setting that has a cmdenv tag or a documented string/hostport/url/list/map type (counts in coverage: settings_with_cmdenv, string_settings_without_cmdenv), each given through a generated non-empty subset of its sources " +
+			"{--flag, env var (struct-tag name or the name the metadata documents), shared fallback flag/env (HoneycombAPIKey), file1, file2} with a distinct value per source (valid for the setting's documented type, ~10% deliberately invalid); " +
 			"file values of string-typed settings carry ${VAR} references (whole value, prefix, suffix, two adjoining, middle, brace-less) incl. inside list elements and map values, each variable set or unset. " +
 			"Executed through the real NewCmdEnvOptions+NewConfig with the process environment set per case; judged against a precedence/expansion model and against a literal twin (one file with the model's effective values, no flags/env). " +
 			"Non-trivial: some setting has >=2 sources present. Distinct = distinct case JSON.",
